@@ -1,2 +1,330 @@
+import Rink.Lemmas.DimCanon
 import Rink.Model.Eval
-/-! property theorems: under construction -/
+/-!
+# C02 — Dimensional analysis is sound
+
+* `eval_canonical`: for every expression of the whole language (every operator and function,
+  any nesting) evaluated in a context whose database entries are canonical, the
+  dimensionality of the result is canonical: strictly ordered base units and **no base unit
+  carried with exponent zero**.
+* the algebra itself: `mul_unit`, `div_unit`, `pow_unit`, `root_unit` state that products add
+  exponents (`Dim.mul` = merge with zero-dropping), quotients subtract, integer powers
+  multiply, roots divide and are refused unless exact.
+* the gates: sum, difference, `mod`, `hypot`, `atan2` are refused between different
+  dimensionalities; trigonometric functions accept only dimensionless or `radian`; inverse
+  ones return `radian`.
+-/
+namespace Rink.Spec
+open Rink Rink.Eval Rink.Dim
+
+def CtxCanonical (ctx : Ctx) : Prop := ∀ name n, ctx.lookup name = some n → Canonical n.unit
+
+/-! ### the algebra of the four unit-transforming operations -/
+
+theorem mul_unit (a b : Number) : (Number.mul a b).unit = Dim.mul a.unit b.unit := rfl
+
+theorem div_unit (a b x : Number) (h : Number.div a b = .ok x) :
+    x.unit = Dim.mul a.unit (b.unit.map fun (k, p) => (k, -p)) := by
+  unfold Number.div at h
+  cases hb : b.value with
+  | float => simp [hb] at h
+  | rational q =>
+    simp only [hb] at h
+    split at h
+    · cases h
+    · simp only [Number.invert, hb, Numeric.div, Numeric.one] at h
+      split at h
+      · cases h
+      · cases h; rfl
+
+theorem pow_unit (a x : Number) (e : Int) (h : Number.powi a e = .ok x) : x.unit = Dim.pow a.unit e := by
+  unfold Number.powi at h
+  split at h
+  · cases h
+  · obtain ⟨v, _, hv⟩ := (Outcome.bind_eq_ok _ _ _).mp h
+    cases hv; rfl
+
+/-- roots divide every exponent and are refused unless every exponent is divisible -/
+theorem root_unit (a x : Number) (e : Int) (h : Number.root a e = .ok x) :
+    x.unit = (a.unit.map fun (k, p) => (k, p / e)) ∧ a.unit.any (fun (_, p) => p % e != 0) = false := by
+  unfold Number.root at h
+  cases hv : a.value with
+  | float => simp [hv] at h
+  | rational q =>
+    simp only [hv] at h
+    split at h
+    · cases h
+    · split at h
+      · cases h
+      · rename_i hany
+        cases h
+        exact ⟨rfl, by simpa using hany⟩
+
+theorem root_refuses (a : Number) (e : Int) (q : Rat) (hv : a.value = .rational q) (hq : ¬ q < 0)
+    (h : a.unit.any (fun (_, p) => p % e != 0) = true) : Number.root a e = .err .generic := by
+  simp [Number.root, hv, hq, h]
+
+/-! ### gates -/
+
+theorem add_refuses_mismatch (a b : Number) (h : a.unit ≠ b.unit) : Number.add a b = .err .generic := by
+  simp [Number.add, h]
+theorem sub_refuses_mismatch (a b : Number) (h : a.unit ≠ b.unit) : Number.sub a b = .err .generic := by
+  simp [Number.sub, h]
+theorem rem_refuses_mismatch (a b : Number) (h : a.unit ≠ b.unit) : Number.rem a b = .err .generic := by
+  simp [Number.rem, h]
+theorem hypot_refuses_mismatch (a b : Number) (h : a.unit ≠ b.unit) : applyFunc .hypot [a, b] = .err .generic := by
+  simp [applyFunc, h]
+theorem atan2_refuses_mismatch (a b : Number) (h : a.unit ≠ b.unit) : applyFunc .atan2 [a, b] = .err .generic := by
+  simp [applyFunc, h]
+theorem trig_accepts_only_angle (f : Func) (hf : f = .sin ∨ f = .cos ∨ f = .tan) (a : Number)
+    (h1 : a.unit ≠ []) (h2 : a.unit ≠ radian) : applyFunc f [a] = .err .generic := by
+  rcases hf with rfl | rfl | rfl <;> simp [applyFunc, Number.dimless, h1, h2]
+theorem trig_result_dimensionless (f : Func) (hf : f = .sin ∨ f = .cos ∨ f = .tan) (a x : Number)
+    (h : applyFunc f [a] = .ok x) : x.unit = [] := by
+  rcases hf with rfl | rfl | rfl <;>
+    (simp only [applyFunc, floatWith] at h
+     split at h
+     · cases h
+     · cases h; rfl)
+theorem inverse_trig_returns_angle (f : Func) (hf : f = .asin ∨ f = .acos ∨ f = .atan) (a x : Number)
+    (h : applyFunc f [a] = .ok x) : a.unit = [] ∧ x.unit = radian := by
+  rcases hf with rfl | rfl | rfl <;>
+    (simp only [applyFunc, floatWith, Number.dimless] at h
+     by_cases hd : a.unit = []
+     · simp [hd] at h; subst h; exact ⟨hd, rfl⟩
+     · simp [hd] at h)
+theorem atan2_returns_angle (a b x : Number) (h : applyFunc .atan2 [a, b] = .ok x) : a.unit = b.unit ∧ x.unit = radian := by
+  simp only [applyFunc, floatWith] at h
+  by_cases hd : a.unit = b.unit
+  · simp [hd] at h; subst h; exact ⟨hd, rfl⟩
+  · simp [hd] at h
+
+/-! ### every operation preserves canonical dimensionalities -/
+
+theorem div_canonical (a b x : Number) (ha : Canonical a.unit) (hb : Canonical b.unit)
+    (h : Number.div a b = .ok x) : Canonical x.unit := by
+  rw [div_unit a b x h]; exact mul_canonical _ _ ha (recip_canonical _ hb)
+
+theorem powi_canonical (a x : Number) (e : Int) (ha : Canonical a.unit) (h : Number.powi a e = .ok x) :
+    Canonical x.unit := by
+  rw [pow_unit a x e h]; exact pow_canonical _ _ ha
+
+theorem root_canonical' (a x : Number) (e : Int) (ha : Canonical a.unit) (h : Number.root a e = .ok x) :
+    Canonical x.unit := by
+  obtain ⟨h1, h2⟩ := root_unit a x e h
+  rw [h1]; exact Dim.root_canonical _ _ ha h2
+
+theorem pow_canonical' (a b x : Number) (ha : Canonical a.unit) (h : Number.pow a b = .ok x) : Canonical x.unit := by
+  unfold Number.pow at h
+  split at h
+  · cases h
+  · cases hb : b.value with
+    | float => simp [hb] at h
+    | rational e =>
+      simp only [hb] at h
+      split at h
+      · cases h
+      · split at h
+        · cases hav : a.value with
+          | float => simp only [hav] at h; exact powi_canonical a x _ ha h
+          | rational q =>
+            simp only [hav] at h
+            split at h
+            · cases h
+            · exact powi_canonical a x _ ha h
+        · split at h
+          · exact root_canonical' a x _ ha h
+          · split at h
+            · cases h
+            · cases h; exact ha
+
+theorem shiftBy_unit (a x : Number) (k : Int) (h : Number.shiftBy a k = .ok x) : x.unit = a.unit := by
+  unfold Number.shiftBy at h
+  split at h
+  · cases h
+  · split at h
+    · cases h; rfl
+    · obtain ⟨v, _, hv⟩ := (Outcome.bind_eq_ok _ _ _).mp h
+      cases hv; rfl
+
+theorem applyBin_canonical (op : BinOp) (a b x : Number) (ha : Canonical a.unit) (hb : Canonical b.unit)
+    (h : applyBin op a b = .ok x) : Canonical x.unit := by
+  cases op with
+  | add => simp only [applyBin, Number.add] at h; split at h <;> cases h; exact ha
+  | sub => simp only [applyBin, Number.sub] at h; split at h <;> cases h; exact ha
+  | frac => exact div_canonical a b x ha hb h
+  | pow => exact pow_canonical' a b x ha h
+  | equals => cases h
+  | shl =>
+    simp only [applyBin, Number.shl] at h
+    obtain ⟨k, _, hk⟩ := (Outcome.bind_eq_ok _ _ _).mp h
+    rw [shiftBy_unit a x k hk]; exact ha
+  | shr =>
+    simp only [applyBin, Number.shr] at h
+    obtain ⟨k, _, hk⟩ := (Outcome.bind_eq_ok _ _ _).mp h
+    rw [shiftBy_unit a x _ hk]; exact ha
+  | mod =>
+    simp only [applyBin, Number.rem] at h
+    split at h
+    · cases h
+    · cases hbv : b.value with
+      | float => simp [hbv] at h; rw [← h]; exact ha
+      | rational q =>
+        simp only [hbv] at h
+        split at h
+        · cases h
+        · obtain ⟨v, _, hv⟩ := (Outcome.bind_eq_ok _ _ _).mp h
+          cases hv; exact ha
+  | and => simp only [applyBin, Number.and, Number.bitop] at h; split at h; · cases h
+           · split at h <;> cases h; exact ha
+  | or => simp only [applyBin, Number.or, Number.bitop] at h; split at h; · cases h
+          · split at h <;> cases h; exact ha
+  | xor => simp only [applyBin, Number.xor, Number.bitop] at h; split at h; · cases h
+           · split at h <;> cases h; exact ha
+
+theorem radian_canonical : Canonical radian := baseUnit_canonical _
+
+theorem applyFunc_unit (f : Func) (args : List Number) (x : Number) (h : applyFunc f args = .ok x) :
+    x.unit = [] ∨ x.unit = radian ∨ (∃ a ∈ args, x.unit = a.unit) ∨ (∃ a ∈ args, Number.root a 2 = .ok x) := by
+  cases f <;> rcases args with _ | ⟨a, _ | ⟨b, _ | ⟨c, r⟩⟩⟩ <;> simp only [applyFunc, floatWith] at h <;>
+    first
+    | (cases h; done)
+    | (right; right; right; exact ⟨a, by simp, h⟩)
+    | (cases h; right; right; left; exact ⟨a, by simp, rfl⟩)
+    | (split at h <;> cases h <;>
+        first
+        | (left; rfl)
+        | (right; left; rfl)
+        | (right; right; left; exact ⟨a, by simp, rfl⟩))
+
+theorem applyFunc_canonical (f : Func) (args : List Number) (x : Number)
+    (hargs : ∀ a ∈ args, Canonical a.unit) (h : applyFunc f args = .ok x) : Canonical x.unit := by
+  rcases applyFunc_unit f args x h with h1 | h1 | ⟨a, ha, h1⟩ | ⟨a, ha, h1⟩
+  · rw [h1]; exact nil_canonical
+  · rw [h1]; exact radian_canonical
+  · rw [h1]; exact hargs a ha
+  · exact root_canonical' a x 2 (hargs a ha) h1
+
+/-! ### the main theorem: induction over the whole expression language -/
+
+mutual
+theorem eval_canonical (ctx : Ctx) (hc : CtxCanonical ctx) :
+    ∀ (e : Expr) (n : Number), evalExpr ctx e = .ok n → Canonical n.unit
+  | .unit name, n, h => by
+    simp only [evalExpr] at h
+    split at h
+    · cases h
+    · split at h
+      · rename_i v hv; cases h; exact hc name _ hv
+      · split at h <;> cases h
+  | .quote s, n, h => by simp only [evalExpr] at h; cases h; exact baseUnit_canonical s
+  | .const v, n, h => by simp only [evalExpr] at h; cases h; exact nil_canonical
+  | .date _, n, h => by simp [evalExpr] at h
+  | .binop op l r, n, h => by
+    cases op with
+    | equals =>
+      simp only [evalExpr] at h
+      split at h
+      · exact eval_canonical ctx hc r n h
+      · cases h
+    | add | sub | frac | pow | shl | shr | mod | and | or | xor =>
+      simp only [evalExpr] at h
+      cases hl : evalExpr ctx l with
+      | ok a =>
+        cases hr : evalExpr ctx r with
+        | ok b =>
+          simp [hl, hr] at h
+          exact applyBin_canonical _ a b n (eval_canonical ctx hc l a hl) (eval_canonical ctx hc r b hr) h
+        | err c => simp [hl, hr] at h
+        | panic s => simp [hl, hr] at h
+        | unsupported s => simp [hl, hr] at h
+      | err c => simp [hl] at h
+      | panic s => simp [hl] at h
+      | unsupported s => simp [hl] at h
+  | .unary .positive e, n, h => by simp only [evalExpr] at h; exact eval_canonical ctx hc e n h
+  | .unary .negative e, n, h => by
+    simp only [evalExpr] at h
+    cases he : evalExpr ctx e with
+    | ok a => simp [he] at h; rw [← h]; exact eval_canonical ctx hc e a he
+    | err c => simp [he] at h
+    | panic s => simp [he] at h
+    | unsupported s => simp [he] at h
+  | .unary (.degree d) e, n, h => by
+    simp only [evalExpr] at h
+    cases he : evalExpr ctx e with
+    | ok a =>
+      simp only [he, Outcome.bind_ok] at h
+      split at h
+      · cases h
+      · split at h
+        · rename_i s b hs hb
+          split at h
+          · cases h
+          · cases h
+            exact mul_canonical _ _ (eval_canonical ctx hc e a he) (hc _ _ hs)
+        · cases h
+    | err c => simp [he] at h
+    | panic s => simp [he] at h
+    | unsupported s => simp [he] at h
+  | .mul es, n, h => by
+    simp only [evalExpr] at h
+    exact evalMul_canonical ctx hc es Number.one n nil_canonical h
+  | .ofProp _ e, n, h => by
+    simp only [evalExpr] at h
+    cases he : evalExpr ctx e <;> simp [he] at h
+  | .call f args, n, h => by
+    simp only [evalExpr] at h
+    cases ha : evalArgs ctx args with
+    | ok vs => simp [ha] at h; exact applyFunc_canonical f vs n (evalArgs_canonical ctx hc args vs ha) h
+    | err c => simp [ha] at h
+    | panic s => simp [ha] at h
+    | unsupported s => simp [ha] at h
+  | .error msg, n, h => by simp only [evalExpr] at h; split at h <;> cases h
+
+theorem evalMul_canonical (ctx : Ctx) (hc : CtxCanonical ctx) :
+    ∀ (es : List Expr) (acc n : Number), Canonical acc.unit → evalMul ctx acc es = .ok n → Canonical n.unit
+  | [], acc, n, hacc, h => by simp only [evalMul] at h; cases h; exact hacc
+  | e :: es, acc, n, hacc, h => by
+    simp only [evalMul] at h
+    cases he : evalExpr ctx e with
+    | ok b =>
+      simp [he] at h
+      exact evalMul_canonical ctx hc es _ n (mul_canonical _ _ hacc (eval_canonical ctx hc e b he)) h
+    | err c => simp [he] at h
+    | panic s => simp [he] at h
+    | unsupported s => simp [he] at h
+
+theorem evalArgs_canonical (ctx : Ctx) (hc : CtxCanonical ctx) :
+    ∀ (es : List Expr) (vs : List Number), evalArgs ctx es = .ok vs → ∀ a ∈ vs, Canonical a.unit
+  | [], vs, h => by simp only [evalArgs] at h; cases h; simp
+  | e :: es, vs, h => by
+    simp only [evalArgs] at h
+    cases he : evalExpr ctx e with
+    | ok v =>
+      cases hr : evalArgs ctx es with
+      | ok rest =>
+        simp [he, hr] at h
+        subst h
+        intro a ha
+        rcases List.mem_cons.mp ha with rfl | ha
+        · exact eval_canonical ctx hc e _ he
+        · exact evalArgs_canonical ctx hc es rest hr a ha
+      | err c => simp [he, hr] at h
+      | panic s => simp [he, hr] at h
+      | unsupported s => simp [he, hr] at h
+    | err c => simp [he] at h
+    | panic s => simp [he] at h
+    | unsupported s => simp [he] at h
+end
+
+/-- in particular: no result ever carries a base unit with exponent zero -/
+theorem eval_no_zero_exponent (ctx : Ctx) (hc : CtxCanonical ctx) (e : Expr) (n : Number)
+    (h : evalExpr ctx e = .ok n) : ∀ x ∈ n.unit, x.2 ≠ 0 :=
+  (eval_canonical ctx hc e n h).2
+
+/-! non-vacuity and the defect the theorem excludes: the unfixed `powi` kept `m^0` -/
+example : Dim.pow [("m", 2)] 0 = [] := by decide
+example : ¬ Canonical (Dim.scale [("m", 2)] 0) := by
+  intro h; exact h.2 ("m", 0) (by decide) rfl
+
+end Rink.Spec
